@@ -131,8 +131,16 @@ impl Gen {
 }
 
 fn names(class: &str, what: &str, n: usize, g: &mut Gen) -> Vec<String> {
+    // empty_first / empty_mid / empty_last: plain names with an empty string at that position
+    let empty_at = match class {
+        "empty_first" => Some(0),
+        "empty_mid" => Some(n / 2),
+        "empty_last" => Some(n.saturating_sub(1)),
+        _ => None,
+    };
     (0..n)
         .map(|i| match class {
+            _ if empty_at == Some(i) => String::new(),
             "prefix" => {
                 // each name extends the previous one
                 let base = format!("Dungeons\\Textures\\{what}\\wall");
@@ -300,7 +308,8 @@ fn build_root(c: &Value, g: &mut Gen) -> WmoRoot {
         })
         .collect();
     let skybox = if gi(c, "sky") == 1 {
-        Some(names(class, "sky", 1, g).remove(0).replace(".blp", ".m2"))
+        // the skybox is a single path, not a name table: never empty
+        Some(names(if class.starts_with("empty") { "plain" } else { class }, "sky", 1, g).remove(0).replace(".blp", ".m2"))
     } else {
         None
     };
@@ -458,6 +467,19 @@ fn resolve_tex(r: &WmoRoot, off: u32) -> String {
     }
 }
 
+/// `gmask[i]` = the group name at position i was empty in the object written (the parser replaces an empty name
+/// by a placeholder; the `_named` sections compare everything else position by position).
+fn root_tokens_m(r: &WmoRoot, gmask: &[bool]) -> Toks {
+    let mut t = root_tokens(r);
+    t.insert("textures_named", dtok(&r.textures.iter().filter(|s| !s.is_empty()).cloned().collect::<Vec<_>>()));
+    t.insert(
+        "group_names_named",
+        dtok(&r.groups.iter().enumerate()
+            .map(|(i, g)| if gmask.get(i).copied().unwrap_or(false) { "<empty in the object written>".to_string() } else { g.name.clone() })
+            .collect::<Vec<_>>()),
+    );
+    t
+}
 fn root_tokens(r: &WmoRoot) -> Toks {
     let mut t = Toks::new();
     let hflags = r.header.flags & !WmoFlags::HAS_SKYBOX; // derived from `skybox` by the writer
@@ -767,9 +789,8 @@ fn strtab(b: &[u8]) -> Vec<Value> {
     let mut s = 0usize;
     for i in 0..b.len() {
         if b[i] == 0 {
-            if i > s {
-                v.push(json!({"off": s, "len": i - s, "tok": tok(&b[s..i])}));
-            }
+            // every NUL ends a string, also an empty one
+            v.push(json!({"off": s, "len": i - s, "tok": tok(&b[s..i])}));
             s = i + 1;
         }
     }
@@ -938,7 +959,8 @@ fn run_root(case: &str, c: &Value, lay: &Layout, seed: u64) -> Vec<Value> {
     let ver = gi(c, "ver");
     let v = version_of(ver);
     let root = build_root(c, &mut g);
-    let tin = root_tokens(&root);
+    let gmask: Vec<bool> = root.groups.iter().map(|x| x.name.is_empty()).collect();
+    let tin = root_tokens_m(&root, &gmask);
     let mut evs = Vec::new();
     let (wres, bytes) = write_root(&root, v);
     let mut lens: BTreeMap<&str, usize> = BTreeMap::new();
@@ -978,7 +1000,7 @@ fn run_root(case: &str, c: &Value, lay: &Layout, seed: u64) -> Vec<Value> {
         let (pres, parsed) = outcome(guarded(|| WmoParser::new().parse_root(&mut Cursor::new(&bytes))));
         body.push(json!({"ev":"Parse","case":case,"api":"legacy","res":pres}));
         if let Some(p) = &parsed {
-            sec_events(case, "parse", &tin, &root_tokens(p), &mut body);
+            sec_events(case, "parse", &tin, &root_tokens_m(p, &gmask), &mut body);
             let (rres, b2) = write_root(p, v);
             body.push(json!({"ev":"Rewrite","case":case,"res":rres,"len":b2.len(),"tok":tok(&b2)}));
             if rres == "ok" {
@@ -1045,12 +1067,13 @@ fn run_conv(case: &str, c: &Value, seed: u64) -> Vec<Value> {
     let mut evs = vec![json!({"ev":"Reset","case":case,"kind":kind,"ver":from,"to":to,"brk":"","shape":shape_attrs(c)})];
     if kind == "rootconv" {
         let mut root = build_root(c, &mut g);
-        let tin = root_tokens(&root);
+        let gmask: Vec<bool> = root.groups.iter().map(|x| x.name.is_empty()).collect();
+        let tin = root_tokens_m(&root, &gmask);
         let (res, _) = outcome(guarded(|| WmoConverter::new().convert_root(&mut root, version_of(to))));
         let vres = if root.version == version_of(to) { "ok" } else { "stale" };
         evs.push(json!({"ev":"Convert","case":case,"from":from,"to":to,"res":res,"version_field":vres}));
         if res == "ok" {
-            let tconv = root_tokens(&root);
+            let tconv = root_tokens_m(&root, &gmask);
             sec_events(case, "convert", &tin, &tconv, &mut evs);
             // the converted object written in the target version and parsed back
             let (wres, bytes) = write_root(&root, version_of(to));
@@ -1059,7 +1082,7 @@ fn run_conv(case: &str, c: &Value, seed: u64) -> Vec<Value> {
                 let (pres, parsed) = outcome(guarded(|| WmoParser::new().parse_root(&mut Cursor::new(&bytes))));
                 evs.push(json!({"ev":"Parse","case":case,"api":"legacy","res":pres}));
                 if let Some(p) = &parsed {
-                    sec_events(case, "convparse", &tconv, &root_tokens(p), &mut evs);
+                    sec_events(case, "convparse", &tconv, &root_tokens_m(p, &gmask), &mut evs);
                 }
                 // the editor's conversion path (what `wmo convert` uses): same object, convert_to_version + save_root
                 let mut g2 = Gen { rng: Rng::derive(seed, case), ctr: 0, xf: gi(c, "xf") == 1, bits: c.get("bits").and_then(|x| x.as_str()).unwrap_or("rand").to_string() };
@@ -1071,7 +1094,7 @@ fn run_conv(case: &str, c: &Value, seed: u64) -> Vec<Value> {
                 let b = cur.into_inner();
                 let res = if eres == "ok" { sres } else { eres };
                 evs.push(json!({"ev":"AltWrite","case":case,"api":"editor.convert_to_version+save_root","res":res,"len":b.len(),"tok":tok(&b)}));
-                sec_events(case, "convert_editor", &tin, &root_tokens(ed.root()), &mut evs);
+                sec_events(case, "convert_editor", &tin, &root_tokens_m(ed.root(), &gmask), &mut evs);
             }
         }
     } else {
